@@ -79,20 +79,22 @@ def h_spec(case):
         ops.append({"op": "junction", "id": "j%d" % j, "index": lab[j], "pn_bar": p0, "tfluid_k": 300.0 + pt.get("tgrad", 0.0) * j,
                     "height_m": heights[j], "in_service": pt.get("jins%d" % j, True)})
     fk = pt.get("feeder", "one")
-    ops.append({"op": "ext_grid", "id": "eg0", "junction": "j%d" % feeder, "p_bar": p0, "t_k": 300.0,
+    tg = pt.get("tgrad", 0.0)
+    tf, tf1 = 300.0 + tg * feeder, 300.0 + tg * ((feeder + 1) % n)   # feed temperature = start temperature of the junction
+    ops.append({"op": "ext_grid", "id": "eg0", "junction": "j%d" % feeder, "p_bar": p0, "t_k": tf,
                 "type": "p" if fk == "type_p" else "pt"})
     if fk == "two_same":
-        late_eg = {"op": "ext_grid", "id": "eg1", "junction": "j%d" % feeder, "p_bar": p0 + 0.4, "t_k": 300.0}
+        late_eg = {"op": "ext_grid", "id": "eg1", "junction": "j%d" % feeder, "p_bar": p0 + 0.4, "t_k": tf}
     elif fk == "second_other":
         ops.append({"op": "ext_grid", "id": "eg1", "junction": "j%d" % ((feeder + 1) % n), "p_bar": p0 - 0.2,
-                    "t_k": 300.0})
+                    "t_k": tf1})
     elif fk == "three_interleaved":
         # two grids on the feeder junction separated in the table by a grid on another junction
         ops.append({"op": "ext_grid", "id": "eg1", "junction": "j%d" % ((feeder + 1) % n), "p_bar": p0 - 0.2,
-                    "t_k": 300.0})
-        ops.append({"op": "ext_grid", "id": "eg2", "junction": "j%d" % feeder, "p_bar": p0 + 0.4, "t_k": 300.0})
+                    "t_k": tf1})
+        ops.append({"op": "ext_grid", "id": "eg2", "junction": "j%d" % feeder, "p_bar": p0 + 0.4, "t_k": tf})
     elif fk == "two_one_oos":
-        ops.append({"op": "ext_grid", "id": "eg1", "junction": "j%d" % feeder, "p_bar": p0 + 0.4, "t_k": 300.0,
+        ops.append({"op": "ext_grid", "id": "eg1", "junction": "j%d" % feeder, "p_bar": p0 + 0.4, "t_k": tf,
                     "in_service": False})
     late_ops = []
     for j in range(n):
